@@ -99,6 +99,7 @@ def observers(xgi):
 
 def init(sim):
     sim.c08_dir = None
+    sim.c08_fs = None
 
 
 def next_record(sim):
@@ -355,14 +356,39 @@ def do_observe(sim, rec):
     random.seed(rec["uid"] * 7919 + 1)
     np.random.seed((rec["uid"] * 104729 + 7) % (1 << 32))
     exc = None
+    fs = None
+    if fn.startswith("xgi:write_") and sim.c08_dir is not None:
+        # writers run on the simulated raw device: short writes always, and in about a third of
+        # the calls an injected ENOSPC / EIO / failing open / failing close -- the input must be
+        # left alone whether the writer returns or raises
+        from ..simfs import Plan, SimFS
+        if sim.c08_fs is None:
+            sim.c08_fs = SimFS()
+            sim.c08_fs.destroy()
+            sim.c08_fs.root = sim.c08_dir
+        fs = sim.c08_fs
+        fault = None
+        if r.random() < 0.35:
+            fault = {"kind": r.choice(["enospc", "eio_write", "open_fail", "close_fail"]),
+                     "at": r.choice([0, 3, 20, 80, 300])}
+        fs.plan = Plan(r.randint(1, 32), None, fault)
     with warnings.catch_warnings():
         warnings.simplefilter("ignore")
         try:
-            out = thunk()
+            if fs is not None:
+                with fs:
+                    out = thunk()
+            else:
+                out = thunk()
             if inspect.isgenerator(out):
                 out = list(out)
         except Exception as ex:  # noqa
             exc = ex
+    if fs is not None:
+        for k, c in fs.plan.fired.items():
+            w.stats["fault_fired:" + k] += c
+        if fs.plan.fault:
+            w.stats["fault_configured:" + fs.plan.fault["kind"]] += 1
     try:
         import matplotlib.pyplot as plt
         plt.close("all")
